@@ -353,6 +353,41 @@ class Analyzer3:
             return self.held_position(r['r'], st)
         return None
 
+    def runs_ahead(self, e, c):
+        """cursor e (a local) is initialised from cursor c plus a non-negative constant, afterwards only stepped forward, and c is
+        not modified anywhere between e's initialisation and the uses of e (syntactic: c is only modified after the last
+        mention of e in source order)"""
+        from ..dataflow import node_effects as ne
+        fn = self.fn
+        inits = []
+        last_e = 0
+        c_mods = []
+        for n in self.cfg.nodes:
+            for ev in ne(n):
+                if ev.kind == 'declinit' and ev.lhs['n'] == e and ev.rhs is not None:
+                    inits.append((n, ev.rhs))
+                elif ev.kind == 'store' and self.key(ev.lhs) == e:
+                    if ev.node['op'] == '=':
+                        inits.append((n, ev.node['r']))
+                    elif not (ev.node['op'] == '+=' and (const_val(ev.node['r']) or -1) >= 0):
+                        return False
+                elif ev.kind == 'incdec' and self.key(ev.lhs) == e and ev.delta < 0:
+                    return False
+                if ev.kind in ('store', 'incdec') and self.key(ev.lhs) == c:
+                    c_mods.append(n.line)
+            root = n.expr if n.expr is not None else (n.decl.get('init') if n.kind == 'decl' and n.decl else None)
+            if root is not None and any(x.get('k') == 'ref' and x.get('n') == e for x in walk(root)):
+                last_e = max(last_e, n.line)
+            if n.kind == 'decl' and n.decl is not None and n.decl.get('n') == e:
+                last_e = max(last_e, n.line)
+        if len(inits) != 1:
+            return False
+        pn = self.norm(inits[0][1])
+        if not pn or pn[0] != c or not isinstance(pn[1], int) or pn[1] < 0:
+            return False
+        first_e = inits[0][0].line
+        return all(m < first_e or m > last_e for m in c_mods)
+
     def assign_int(self, st, did, rhs):
         hp = self.held_position(rhs, st)
         st.holds.pop(did, None)
@@ -367,6 +402,13 @@ class Analyzer3:
             pn = self.norm(r0['args'][0])
             if pn and pn[1] == 0 and pn[0] in self.tracked and st.nz.get(pn[0], NEG) >= 0:
                 st.rel[(pn[0], did)] = 0        # nz[c] >= n + 0
+                return
+        # n = e - c for two cursors of one string where e was pointed at c (plus a constant >= 0) and has only moved forward since,
+        # while c stood still: c + n is where e is, a position known to be inside the string
+        if r0.get('k') == 'bin' and r0['op'] == '-':
+            pe, pc = self.norm(r0['l']), self.norm(r0['r'])
+            if pe and pc and pe[1] == 0 and pc[1] == 0 and st.nz.get(pe[0], NEG) >= 0 and self.runs_ahead(pe[0], pc[0]):
+                st.rel[(pc[0], did)] = st.nz[pe[0]]
                 return
         c = const_val(rhs)
         if c is not None:
@@ -730,6 +772,12 @@ def _read_keys(u, fn):
                     pn = probe.norm(acc[0])
                     if pn:
                         written.add(pn[0])
+    # the destination of a block writer is written through
+    for c_ in fn.calls():
+        if callee_name(c_) in ('memmove', 'memcpy', 'memset', 'strcpy', 'strncpy', 'sprintf') and c_['args']:
+            pn = probe.norm(c_['args'][0])
+            if pn:
+                written.add(pn[0])
     # a cursor that a read cursor is pointed at (char *c = *input + 2; ... *input = c) and one that receives a read
     # cursor back are read cursors too
     copies = []
